@@ -4,6 +4,7 @@ package c04
 import (
 	"bytes"
 	"context"
+	"crypto/md5"
 	"io"
 
 	"github.com/itchio/lake/pools/fspool"
@@ -28,6 +29,12 @@ func weak(b []byte) uint32 {
 		s += uint32(len(b)-i) * uint32(v)
 	}
 	return (a & 0xffff) | ((s & 0xffff) << 16)
+}
+
+func strong(b []byte) []byte {
+	h := md5.New()
+	h.Write(b)
+	return h.Sum(nil)
 }
 
 // shortReader returns between 1 and len(p) bytes per Read (explored by case split).
@@ -104,12 +111,12 @@ func H_sign() {
 	var want []wsync.BlockHash
 	for fi, d := range contents {
 		if len(d) == 0 {
-			want = append(want, wsync.BlockHash{FileIndex: int64(fi)})
+			want = append(want, wsync.BlockHash{FileIndex: int64(fi), StrongHash: strong(nil)})
 			continue
 		}
 		for off, bi := 0, int64(0); off < len(d); off, bi = off+B, bi+1 {
 			blk := d[off:hlib.Min(off+B, len(d))]
-			h := wsync.BlockHash{FileIndex: int64(fi), BlockIndex: bi, WeakHash: weak(blk), StrongHash: blk}
+			h := wsync.BlockHash{FileIndex: int64(fi), BlockIndex: bi, WeakHash: weak(blk), StrongHash: strong(blk)}
 			if len(blk) < B {
 				h.ShortSize = int32(len(blk))
 			}
@@ -126,8 +133,8 @@ func H_sign() {
 			rt.Assert(g.FileIndex == w.FileIndex && g.BlockIndex == w.BlockIndex, who+": block position")
 			rt.Assert(g.WeakHash == w.WeakHash, who+": weak hash")
 			rt.Assert(g.ShortSize == w.ShortSize, who+": short size")
-			// the strong hash is modelled injectively: content followed by 4 length bytes
-			rt.Assert(len(g.StrongHash) >= len(w.StrongHash) && rt.BytesEqual(g.StrongHash[:len(w.StrongHash)], w.StrongHash), who+": strong hash covers exactly the block")
+			// reference strong hash through the same hash API (injective model in the engine, real MD5 natively)
+			rt.Assert(rt.BytesEqual(g.StrongHash, w.StrongHash), who+": strong hash is the hash of exactly the block")
 		}
 	}
 	check(direct, "stand-alone signing")
